@@ -1,10 +1,10 @@
 SPECIFICATION Spec
 CONSTANTS
-  OptSet <- OptsPlain
-  CallSet <- SingleCalls
-  ChangeSet <- MoveChanges
+  OptSet <- OptsStream
+  CallSet <- StreamCalls
+  ChangeSet <- NoChanges
   MaxCalls = 1
-  MaxChanges = 1
+  MaxChanges = 0
   MaxGen = 3
   MaxAtt = 3
   EagerLazy = FALSE
@@ -14,15 +14,15 @@ CONSTANTS
   BugTxNoMulti = FALSE
   BugPredIgnored = FALSE
   BugNodeOrder = FALSE
-  BugMovedIgnored = TRUE
+  BugMovedIgnored = FALSE
   BugMaxOffByOne = FALSE
   BugSelClamp = FALSE
   BugRefreshDropsInit = FALSE
   BugAskRunNoInit = FALSE
   BugPoolStale = FALSE
-  BugStreamKeyless = FALSE
+  BugStreamKeyless = TRUE
   BugPromoteReplica = FALSE
-INVARIANTS TypeOK RedirectFollowed
+INVARIANTS TypeOK ReplicaOnlyWhenOptedIn
 CONSTRAINT GenBound
 VIEW MCView
 CHECK_DEADLOCK FALSE
